@@ -8,6 +8,7 @@
 
 #include "rlbox_conversion.hpp"
 
+#include <array>
 #include <tuple>
 
 using ref::i128;
@@ -104,6 +105,63 @@ static void sweep_pair(mon::Rng& rng, bool& did_exhaustive)
                          (unsigned long long)ps.exact, (unsigned long long)ps.abort_ok, did_exhaustive ? "true" : "false"));
 }
 
+// arrays of each element pair through convert_type_fundamental_or_array:
+// C arrays (1-D, 2-D) and std::array; every element position gets boundary
+// values; expected: abort iff some element is unrepresentable, else every
+// element keeps its value (same-width pairs take the library's memcpy path).
+template<typename To, typename From>
+static void sweep_arrays(mon::Rng& rng)
+{
+  mon::ctx("leaf-array/%s<-%s | sweep", ref::name<To>(), ref::name<From>());
+  auto vals = ref::boundaries<From>();
+  uint64_t n = 0, exact = 0, aborts = 0;
+  auto judge = [&](const char* shape, const From* src, const To* dst, size_t cnt, bool aborted) {
+    bool allrep = true;
+    for (size_t i = 0; i < cnt; i++) allrep = allrep && ref::fits<To>(static_cast<i128>(src[i]));
+    n++;
+    if (allrep) {
+      bool same = !aborted;
+      for (size_t i = 0; same && i < cnt; i++) same = static_cast<i128>(dst[i]) == static_cast<i128>(src[i]);
+      if (same) { exact++; return; }
+    } else if (aborted) { aborts++; return; }
+    std::string el;
+    for (size_t i = 0; i < cnt; i++) el += mon::i128s(static_cast<i128>(src[i])) + " ";
+    mon::violation(mon::fmt("C06/leaf-array/%s/%s<-%s/%s", shape, ref::name<To>(), ref::name<From>(), allrep ? (aborted ? "spurious-abort" : "wrong-value") : "silent-value-change"),
+                   mon::fmt("convert_type_fundamental_or_array %s of %s from %s, elements [%s]: all representable=%d aborted=%d", shape, ref::name<To>(), ref::name<From>(), el.c_str(), allrep, aborted));
+  };
+  int rounds = mon::tier(40, 400);
+  for (int r = 0; r < rounds; r++) {
+    From a1[3], a2[2][2];
+    std::array<From, 3> a3;
+    for (int i = 0; i < 3; i++) { a1[i] = vals[rng.below(vals.size())]; a3[i] = vals[rng.below(vals.size())]; }
+    for (int i = 0; i < 2; i++) for (int j = 0; j < 2; j++) a2[i][j] = vals[rng.below(vals.size())];
+    // most rounds: only one position may hold an unrepresentable value, so each position is exercised
+    if (r % 3 != 0) {
+      int keep = rng.below(3);
+      for (int i = 0; i < 3; i++) if (i != keep) { if (!ref::fits<To>(static_cast<i128>(a1[i]))) a1[i] = From(1); if (!ref::fits<To>(static_cast<i128>(a3[i]))) a3[i] = From(1); }
+      int kk = rng.below(4);
+      for (int i = 0; i < 4; i++) if (i != kk && !ref::fits<To>(static_cast<i128>(a2[i / 2][i % 2]))) a2[i / 2][i % 2] = From(0);
+    }
+    To b1[3] = {}, b2[2][2] = {};
+    std::array<To, 3> b3{};
+    mon::abort_flag = 0;
+    rlbox::detail::convert_type_fundamental_or_array(b1, a1);
+    judge("T[3]", a1, b1, 3, mon::abort_flag != 0);
+    mon::abort_flag = 0;
+    rlbox::detail::convert_type_fundamental_or_array(b2, a2);
+    judge("T[2][2]", &a2[0][0], &b2[0][0], 4, mon::abort_flag != 0);
+    mon::abort_flag = 0;
+    rlbox::detail::convert_type_fundamental_or_array(b3, a3);
+    judge("std::array<T,3>", a3.data(), b3.data(), 3, mon::abort_flag != 0);
+  }
+  mon::evals(n);
+  mon::hit("array-exact-value-expected-and-observed", exact);
+  mon::hit("array-abort-expected-and-observed", aborts);
+  uint64_t h = mon::mix(std::hash<std::string>()(ref::name<To>()), std::hash<std::string>()(ref::name<From>()));
+  if (exact) mon::distinct(mon::mix(h, 11));
+  if (aborts) mon::distinct(mon::mix(h, 12));
+}
+
 static int g_pair_index = 0;
 
 template<typename From, typename... Tos>
@@ -116,6 +174,7 @@ static void for_each_to(mon::Rng& rng, tl<Tos...>)
     mon::Rng r(mon::seed() * 1000003 + idx);
     bool ex;
     sweep_pair<To, From>(r, ex);
+    if constexpr (!std::is_same_v<From, bool> && !std::is_same_v<To, bool>) sweep_arrays<To, From>(r);
   };
   (one(std::common_type<Tos>{}), ...);
 }
@@ -131,6 +190,7 @@ int main(int argc, char** argv)
   mon::init("C06", argc, argv);
   mon::require("exact-value-expected-and-observed");
   mon::require("abort-expected-and-observed");
+  mon::require("array-exact-value-expected-and-observed");
   mon::Rng rng(mon::seed());
   for_each_from(rng, all_ints{});
   mon::extra("abort_capture_mode", "\"flag (RLBOX_CUSTOM_ABORT)\"");
